@@ -53,6 +53,18 @@ fn hostile_docs() -> Vec<Value> {
         deep = if i % 2 == 0 { json!([deep]) } else { json!({ "a": deep }) };
     }
     v.push(deep);
+    // numbers that are "equal" to their neighbours under a tolerant comparison but not to their
+    // neighbours' neighbours (a non-transitive ordering makes sorting code panic), in unlucky orders
+    for base in [0.3f64, 1e15, -2.5] {
+        let ks = [2u64, 2, 3, 3, 2, 1, 0, 3, 3, 0, 0, 2, 1, 0, 3, 1, 3, 1, 1, 3, 2, 4, 0, 5, 1, 4, 2, 5, 3, 0, 4, 1, 5, 2, 3, 4, 0, 5, 1, 2];
+        let xs: Vec<Value> = ks.iter().map(|k| json!(f64::from_bits((base.to_bits() as i64 + if base < 0.0 { -(*k as i64) } else { *k as i64 }) as u64))).collect();
+        v.push(Value::Array(xs.clone()));
+        v.push(Value::Array(xs.iter().enumerate().map(|(i, x)| json!({"k": x, "id": i})).collect()));
+    }
+    // integers from both ends of the 64-bit ranges side by side (no common machine type)
+    v.push(json!([[-9223372036854775808i64], 18446744073709551615u64]));
+    v.push(json!([-9223372036854775808i64, 18446744073709551615u64, -9007199254740993i64, 9223372036854775808u64, 9007199254740993u64, 0]));
+    v.push(json!({"k": [-9223372036854775807i64, 18446744073709551614u64], "a": -9223372036854775808i64, "b": 18446744073709551615u64}));
     v
 }
 
@@ -137,7 +149,7 @@ fn edge_case(idx: u64) -> (String, Value, Option<String>) {
     (expr, doc, a.map(|n| format!("@[{}]", n)))
 }
 
-const PATS: [&str; 14] = ["@", "@, @", "&@, @", "@, &@", "@[0]", "@[0], @[1]", "k", "`1e308`", "@, `1e308`", "", "@, @, @", "'s', @", "@, 's'", "&k, @"];
+const PATS: [&str; 18] = ["@", "@, @", "&@, @", "@, &@", "@[0]", "@[0], @[1]", "k", "`1e308`", "@, `1e308`", "", "@, @, @", "'s', @", "@, 's'", "&k, @", "@, &k", "a, b", "@[1], @[0]", "k, a"];
 
 const EDGE: [Option<i64>; 11] = [
     None,
